@@ -147,9 +147,12 @@ def search(run, info):
     st_stats = st_corr.check(run, info, 250 if run.tier == "quick" else 4000, 500 if run.tier == "quick" else 8000, "c01")
     # ---- the declaration parser model (variable declaration blocks of a function block) ----
     decl_stats = st_corr.check_fbd(run, info, 150 if run.tier == "quick" else 2500, 600 if run.tier == "quick" else 8000, "c01")
+    # ---- the library model: several function blocks and programs ----
+    lib_stats = st_corr.check_lib(run, info, 120 if run.tier == "quick" else 2000, 500 if run.tier == "quick" else 8000, "c01")
     return {"coverage": {
         "statement_model": st_stats,
         "declaration_model": decl_stats,
+        "library_model": lib_stats,
         "rule": "units from the AST-level generator (TYPE blocks with enumeration / alias / subrange / array / simple / string / structure / "
                 "structure-initialization declarations; FUNCTION / FUNCTION_BLOCK / PROGRAM with every VAR class x qualifier x ten initialiser "
                 "kinds; all statement forms; expressions over all operators, unary operators, calls, structured and array variables, typed and "
